@@ -322,6 +322,9 @@ def config_cases(js, defined, prb, threads=False):
     for i in range(len(fn)):
         chains.append([fn[(i + j) % len(fn)] for j in range(min(3, len(fn)))])
         chains.append([fn[i], fn[i]] + fn[:2])
+    if len(fn) >= 2:
+        chains.append([fn[0], "-", fn[1]])        # ";:noop;" - an element with the EMPTY name (and a registered name as argument) is unknown
+        chains.append(["nosuch", "-"])
     if len(fn) >= 3:
         chains.append([fn[0], "x" * 70, fn[1], "y" * 300, fn[2]])          # long unknown names (with an argument) are skipped like any other
     for ch in chains:
@@ -334,6 +337,8 @@ def config_cases(js, defined, prb, threads=False):
                                                   hexs(outn[i % len(outn)].encode()), g))
         out.append("exec\t%s\t%s\t%s\t%s" % (",".join(["nosuch", fn[0]]), ",".join([dn[0], "nosuch", dn[1]]), hexs(b"nosuch"), g))
         out.append("exec\t[]\t%s\t%s\t%s" % (dn[-1], hexs(outn[-1].encode()), g))
+        # the empty name in every role: "%{:noop}" ends the expansion like any unknown tag, ":noop" in a chain is skipped, output "" is unknown
+        out.append("exec\t%s\t%s\t%s\t%s" % (",".join([fn[0], "-", fn[-1]]), ",".join([dn[0], "-", dn[1]]), hexs(b""), g))
     if threads and dn:
         av = py_select([r for r in js["registries"]["ds"]["names"] if r[1]], defined)
         pick = av[:2] + av[-2:] if len(av) >= 4 else av
